@@ -50,6 +50,9 @@ LIST_LIKE_TYPES = [
 ]
 """A list of types that we should handle like lists."""
 
+__LIST_LIKE = (frozenset, set, list, tuple)
+"""The types themselves: an application class that is merely NAMED 'list' or 'tuple' is an object like any other."""
+
 ITER_LIKE_TYPES = [
     'list_iterator',
     'listiterator',
@@ -208,7 +211,7 @@ def variable_to_string(variable_type, var_value):
         # if interator like then make a custom string - we do not want to mess with iterators
         return 'Iterator of type: %s' % variable_type
     elif variable_type is dict \
-            or variable_type.__name__ in LIST_LIKE_TYPES:
+            or variable_type in __LIST_LIKE:
         # if we are a collection then we do not want to use built in string as this can be very
         # large, and quite pointless, instead we just get the size of the collection
         return 'Size: %s' % len(var_value)
@@ -336,7 +339,7 @@ def find_children_for_parent(var_collector: Collector, parent_node: ParentNode, 
     """
     if variable_type is dict:
         return process_dict_breadth_first(parent_node, variable_type.__name__, value)
-    elif variable_type.__name__ in LIST_LIKE_TYPES:
+    elif variable_type in __LIST_LIKE:
         return process_list_breadth_first(var_collector, parent_node, value)
     elif isinstance(value, Exception):
         return process_list_breadth_first(var_collector, parent_node, value.args)
